@@ -23,8 +23,9 @@ TRUSTED_EXTRA = [_FX[1]]
 regenerate_facts = _FX[2]
 KEY = G.S("k")
 
-CONTEXTS = ["list", "utuple", "ntuple", "set", "mapval", "mapkey", "dictany", "record", "class", "maybe", "lazy",
+CONTEXTS = ["list", "utuple", "ntuple", "set", "mapval", "mapvalstrip", "mapkey", "dictany", "record", "class", "named2", "record2", "maybe", "lazy",
             "optional", "union1", "union2", "cache"]
+STRIPK = ("Scalar", ("KStr",), None, [("Strip",)], [], [])
 
 
 def wrap(ctx: str, v, x, rng):
@@ -39,6 +40,9 @@ def wrap(ctx: str, v, x, rng):
         return ("SetV", v, [], [], None), ("VSet", [x]), []
     if ctx == "mapval":
         return ("MapV", ("AlwaysValid",), v, [], [], None), ("VDict", [P(KEY, x)]), []
+    if ctx == "mapvalstrip":
+        # the key validator normalises the key: the value's verdict still sits at the key as the caller wrote it
+        return ("MapV", STRIPK, v, [], [], None), ("VDict", [P(G.S(" k "), x)]), []
     if ctx == "mapkey":
         return ("MapV", v, ("AlwaysValid",), [], [], None), ("VDict", [P(x, G.I(0))]), []
     if ctx == "dictany":
@@ -48,6 +52,16 @@ def wrap(ctx: str, v, x, rng):
     if ctx == "class":
         return (("ClassV", ("RkData",), N(G.C_SLOTS), [P(G.S("a"), P(v, True))], None, None, False, None),
                 ("VDict", [P(G.S("a"), x)]), [])
+    if ctx == "named2":
+        # the last of three fields, the optional one before it absent: the value still lands in its own field
+        INTV_ = ("Scalar", ("KInt",), None, [], [], [])
+        return (("ClassV", ("RkNamed",), N(G.C_NAMED2), [P(G.S("x"), P(INTV_, True)), P(G.S("y"), P(INTV_, False)), P(G.S("z"), P(v, False))],
+                 None, None, False, None), ("VDict", [P(G.S("x"), G.I(1)), P(G.S("z"), x)]), [])
+    if ctx == "record2":
+        # two optional keys with different validators: each key is checked by its own
+        REJ = ("UserV", N(4), False)
+        return (("RecordV", [P(G.S("k"), ("KeyNotRequired", v)), P(G.S("j"), ("KeyNotRequired", REJ))], N(2), None, None, False),
+                ("VDict", [P(G.S("k"), x)]), [])
     if ctx == "maybe":
         return ("MaybeV", v), ("VJust", x), []
     if ctx == "lazy":
@@ -107,6 +121,23 @@ def cases(tier: str, rng: random.Random) -> List[Case]:
                     cs2 = std_case(wv2, wx2, m, lazy=lazy or lazy2, tag="a:ctx2-none:" + c2 + "/" + c1)
                     cs2.extra = {"ctxs": [G.S(c2), G.S(c1)]}
                     out.append(cs2)
+    # a record-class validator handed an instance reads it field by field: each field validator sees the
+    # field's own value (context-free), whatever that value is
+    for v, x in G.instance_cases(rng):
+        for m in ("sync", "async"):
+            out.append(std_case(v, x, m, tag="c:instances"))
+    # an optional around an optional whose own "none" is customised: the outer accepts exactly None plus
+    # whatever the inner optional accepts (an empty mapping, here)
+    for v in (INTV, ("Scalar", ("KStr",), None, [("Strip",)], [], []), ("ListV", INTV, [], [], None)):
+        for co in (5, 1, 0):
+            inner_opt = ("OptionalV", ("NoneV", Some(("CoUser", N(co)))), v)
+            for x in (("VDict", []), G.NONE, G.I(1), G.S(" s "), ("VList", [G.I(1)]), ("VDict", [P(G.S("a"), G.I(1))]), G.F1):
+                for m in ("sync", "async"):
+                    for wv, wx, ctxs in ((("OptionalV", ("NoneV", None), inner_opt), x, ["optional"]),
+                                         (("ListV", ("OptionalV", ("NoneV", None), inner_opt), [], [], None), ("VList", [x]), ["list", "optional"])):
+                        cs = std_case(wv, wx, m, tag="a:ctx-optopt:" + ctxs[0])
+                        cs.extra = {"ctxs": [G.S(c_) for c_ in ctxs]}
+                        out.append(cs)
     # refinement pairs: base validator and its refinement on the same input
     for _ in range(n):
         v = G.gen_validator(rng, rng.choice([0, 1, 2]))
@@ -178,7 +209,7 @@ def unwrap_obj(ctx: str, wv: Any, wx: Any):
         return wv.fields[0], wx[0]
     if ctx == "set":
         return wv.item_validator, next(iter(wx))
-    if ctx == "mapval":
+    if ctx in ("mapval", "mapvalstrip"):
         return wv.value_validator, next(iter(wx.values()))
     if ctx == "mapkey":
         return wv.key_validator, next(iter(wx.keys()))
@@ -188,6 +219,10 @@ def unwrap_obj(ctx: str, wv: Any, wx: Any):
         return wv.keys[0][1], next(iter(wx.values()))
     if ctx == "class":
         return wv.schema["a"], wx["a"]
+    if ctx == "named2":
+        return wv.schema["z"], wx["z"]
+    if ctx == "record2":
+        return wv.keys[0][1].validator, wx["k"]
     if ctx == "maybe":
         return wv.validator, wx.val
     if ctx == "lazy":
@@ -208,7 +243,7 @@ def inner_payload(ctx: str, payload: Any) -> Any:
         return payload[0]
     if ctx == "set":
         return next(iter(payload))
-    if ctx in ("mapval", "dictany"):
+    if ctx in ("mapval", "dictany", "mapvalstrip"):
         return next(iter(payload.values()))
     if ctx == "mapkey":
         return next(iter(payload.keys()))
@@ -216,23 +251,38 @@ def inner_payload(ctx: str, payload: Any) -> Any:
         return payload[0]
     if ctx == "class":
         return payload.a
+    if ctx == "named2":
+        return payload.z
+    if ctx == "record2":
+        return payload[0].val          # into2 builds {0: Just(payload of k), 1: nothing}
     if ctx == "maybe":
         return payload.val
     return payload
 
 
-def inner_error(ctx: str, inv: Any) -> Any:
+def inner_error(ctx: str, inv: Any, wx: Any = None) -> Any:
+    """the inner validator's error, read at the position the input has it (None when it is not there)"""
     e = inv.err_type
     if ctx in ("list", "utuple", "ntuple"):
-        return e.indexes[0] if isinstance(e, KE.IndexErrs) else None
+        return e.indexes.get(0) if isinstance(e, KE.IndexErrs) and list(e.indexes) == [0] else None
     if ctx == "set":
-        return e.item_errs[0] if isinstance(e, KE.SetErrs) else None
-    if ctx == "mapval":
-        return next(iter(e.keys.values())).val if isinstance(e, KE.MapErr) else None
-    if ctx == "mapkey":
-        return next(iter(e.keys.values())).key if isinstance(e, KE.MapErr) else None
-    if ctx in ("dictany", "record", "class"):
-        return next(iter(e.keys.values())) if isinstance(e, KE.KeyErrs) else None
+        return e.item_errs[0] if isinstance(e, KE.SetErrs) and len(e.item_errs) == 1 else None
+    if ctx in ("mapval", "mapvalstrip", "mapkey"):
+        if not isinstance(e, KE.MapErr) or len(e.keys) != 1:
+            return None
+        k0 = next(iter(wx.keys())) if isinstance(wx, dict) and wx else None
+        kv = next((v_ for k_, v_ in e.keys.items() if k_ is k0 or (type(k_) is type(k0) and k_ == k0)), None)
+        if kv is None:
+            return None
+        return kv.key if ctx == "mapkey" else kv.val
+    if ctx in ("dictany", "record", "class", "named2", "record2"):
+        if ctx in ("named2", "record2"):
+            key = "z" if ctx == "named2" else "k"
+            return e.keys.get(key) if isinstance(e, KE.KeyErrs) and list(e.keys) == [key] else None
+        if not isinstance(e, KE.KeyErrs) or len(e.keys) != 1:
+            return None
+        k0 = next(iter(wx.keys())) if isinstance(wx, dict) and wx else None
+        return e.keys.get(k0) if k0 in e.keys else None
     if ctx == "maybe":
         return e.child if isinstance(e, KE.ContainerErr) else None
     if ctx == "optional":
@@ -273,9 +323,36 @@ def oracle(c: Case) -> Optional[dict]:
                 return None if ok else {"signature": f"C18:ctx-payload:{k}", "what": f"inner payload {r.val!r} but context '{k}' holds {ip!r}"}
             if type(got) is not Invalid:
                 return {"signature": f"C18:ctx:{k}", "what": f"inner validator rejects {ix!r} but context '{k}' accepts: {got!r}"}
-            ie = inner_error(k, got)
+            ie = inner_error(k, got, c.px)
             ok = ie is not None and _inv_eq(ctx, ie, r)
             return None if ok else {"signature": f"C18:ctx-error:{k}", "what": f"inner error {r!r} is not the error at that position in context '{k}': {got!r}"}
+        if c.tag == "c:instances" and c.v[0] == "ClassV" and c.exc is None:
+            # the record reads an instance field by field: verdict and payload of every field are the field validator's own
+            v, x = c.vobj, c.px
+            bad_fields, pay = [], {}
+            for name, fv in v.schema.items():
+                try:
+                    r = _call(fv, c.mode, getattr(x, name))
+                except Exception:
+                    return None
+                if r.is_valid:
+                    pay[name] = r.val
+                else:
+                    bad_fields.append((name, r))
+            got = c.raw
+            if not bad_fields:
+                if type(got) is not Valid:
+                    return {"signature": "C18:ctx:instance", "what": f"every field validator accepts its field of {x!r}, yet the record rejects the instance: {got!r}"}
+                for name, w in pay.items():
+                    if not _same(ctx, getattr(got.val, name), w):
+                        return {"signature": "C18:ctx-payload:instance",
+                                "what": f"field {name!r} of {x!r}: the field validator's payload is {w!r}, the record holds {getattr(got.val, name)!r}"}
+                return None
+            if type(got) is not Invalid or type(got.err_type) is not KE.KeyErrs:
+                return {"signature": "C18:ctx:instance", "what": f"fields {[n for n, _ in bad_fields]} of {x!r} are rejected by their validators, the record returns {got!r}"}
+            if set(got.err_type.keys) != {n for n, _ in bad_fields} or any(not _inv_eq(ctx, got.err_type.keys[n], r) for n, r in bad_fields):
+                return {"signature": "C18:ctx-error:instance", "what": f"the field errors of {x!r} are {bad_fields!r}, the record reports {got!r}"}
+            return None
         if c.tag == "b:refined":
             if c.exc is not None or type(c.raw) is not Valid:
                 return None
